@@ -43,7 +43,7 @@ def judge_contours(ctx, vc, cases, label, base_id=0, key_suffix=""):
             raise Machinery("no contour could be observed")
         ctx.log(f"{label}: nothing to judge ({empty} empty selections skipped)")
         return []
-    failing = ctx.validate("Trace_C15", "Trace_C15.cfg", recs, xss=XSS, chunk=ctx.pick(60, 40))
+    failing = ctx.validate("Trace_C15", "Trace_C15.cfg", recs, xss=XSS, chunk=ctx.pick(400, 40))
     multi = 0
     for case, rec, info in kept:
         nontrivial = (not rec["exc"]) and info["n_in"] >= 4 and sum(info["sets"]) >= 4
